@@ -887,6 +887,21 @@ func (fr *Frame) unop(i *ssa.UnOp) {
 		loc := fr.ptrLoc(v, true)
 		fr.vals[i] = fr.readLoc(loc)
 		fr.vals[i].T = i.Type()
+		if g, isG := i.X.(*ssa.Global); isG && g.Pkg != nil {
+			// facts established by the package's initialisers ("//@ initfact", assumed: A-INIT)
+			for _, f := range x.w.cs.pkgFacts[shortPkg(g.Pkg.Pkg.Path())] {
+				if !strings.Contains(f.Src, g.Name()) {
+					continue
+				}
+				env := fr.newEnv()
+				env.pkg = g.Pkg
+				env.specPkg = shortPkg(g.Pkg.Pkg.Path())
+				if t := fr.evalGuard(f, env); t != "false" {
+					x.em.Assert(t)
+					x.trust("A-INIT: package initialisation fact of " + g.Pkg.Pkg.Path() + ": " + f.Src)
+				}
+			}
+		}
 		if g, isG := i.X.(*ssa.Global); isG && kindOf(i.Type()) == KPtr {
 			// exported pointer variables of library packages (base64.StdEncoding, ...) are
 			// initialised at package init and never nil (A-STDLIB-GLOBALS)
